@@ -2,9 +2,9 @@
    Only the standard directives of ExtrOcamlBasic / ExtrOcamlZBigInt are used.
    Compiled with cwd = /verif/ocaml/c18 so that model.ml lands there. *)
 From Coq Require Import Extraction ExtrOcamlBasic ExtrOcamlZBigInt.
-Require Import V.base.Bytes V.gen.Hagrid V.model.Transcript V.model.Commit.
+Require Import V.base.Bytes V.gen.Hagrid V.gen.Hashcom V.model.Transcript V.model.Commit.
 Extraction Blacklist List String Nat.
-Extraction "model.ml" hashcom_input hashcom_commit hashcom_open
+Extraction "model.ml" hashcom_hash_key hashcom_input hashcom_commit hashcom_open
   ped_new_key ped_std_key ped_commit ped_open ped_new_tkey ped_export ped_tcommit ped_equivocate
   int_commit int_open int_equivocate_ok int_witness_in_range
   eg_enc eg_open hrun ped_scheme int_scheme eg_scheme
